@@ -32,7 +32,7 @@ var propSpecs = map[string]PropSpec{
 	"C01": {ID: "C01", Level: "proof", Patterns: []string{"./data/...", "./util/..."},
 		NotCovered: []string{"frame (cells outside the block unchanged) of ApplySlice and CopyFrom; their footprint is bounded by rank 3", "Slice with fewer extents than axes (used by the table-parameter wrappers)"}},
 	"C02": {ID: "C02", Level: "proof", Patterns: []string{"./data/...", "./util/..."},
-		NotCovered: []string{"ApplySlice, CopyFrom and the whole-array helpers (AddTo, ApplyFunc1, Scale) beyond rank 3 (BOUNDED: the mixed-radix successor lemma is proved per rank for ranks 1-3; extents, strides and steps are symbolic)", "Reshape of a view whose new shape has exactly one element (the row-major clause is stated for more than one element)", "Maximum/Minimum methods of arrays", "whole-array helpers on two arrays that share element storage (precondition: the slices their Unroll() return are different objects)", "the bridge between the Go back-end's header and the row-major interface view for the array built by ArrayFromSlice (assumed contract)", "views with an extent of 0 (extents >= 1 are a precondition of the bulk contracts)"}},
+		NotCovered: []string{"ApplySlice, CopyFrom and the whole-array helpers (AddTo, ApplyFunc1, Scale) beyond rank 3 (BOUNDED: the mixed-radix successor lemma is proved per rank for ranks 1-3; extents, strides and steps are symbolic)", "Reshape of a view whose new shape has exactly one element (the row-major clause is stated for more than one element)", "whole-array helpers on two arrays that share element storage (precondition: the slices their Unroll() return are different objects)", "the bridge between the Go back-end's header and the row-major interface view for the array built by ArrayFromSlice (assumed contract)", "views with an extent of 0 (extents >= 1 are a precondition of the bulk contracts)"}},
 	"C03": {ID: "C03", Level: "proof", Patterns: []string{"./data/...", "./util/..."},
 		NotCovered: []string{"ApplySlice/CopyFrom beyond rank 3 (BOUNDED)", "Reshape of a C-backed view to a single-element shape (the row-major clauses are stated for more than one element)", "libopenwater.RunSingleModel (cgo entry point)"}},
 	"C04": {ID: "C04", Level: "proof", Patterns: modelPkgs},
